@@ -38,7 +38,7 @@ class G:
 
     def key(self, supported_only=True):
         r = self.rng
-        pool = [lambda: r.choice(STRS), lambda: r.choice(INTS[:6]), lambda: r.choice([1.5, 0.25, -2.0, 1e22]),
+        pool = [lambda: r.choice(STRS), lambda: r.choice(INTS[:6]), lambda: r.choice([1.5, 0.25, -2.0, 1e22, float("inf"), float("-inf"), float("nan")]),
                 lambda: np.int64(r.choice([0, 3, -4])), lambda: np.float32(r.choice([0.5, 2.0])), lambda: np.int8(r.choice([1, 2])),
                 lambda: np.float64(r.choice([2.5, -0.125, 7.0])), lambda: np.uint16(r.choice([5, 6]))]
         if not supported_only:
@@ -158,7 +158,7 @@ class G:
 
         r = self.rng
         return r.choice([np.sqrt, np.add, special.exp10, int, str, np.float64, list, functools.partial(np.add, 1),
-                         functools.partial(int, base=2), operator.attrgetter("a.b"), operator.itemgetter(1, 2),
+                         functools.partial(int, base=2), operator.attrgetter("a.b"), operator.itemgetter(1, 2), operator.itemgetter(2), operator.itemgetter(1), operator.attrgetter("x"), operator.attrgetter("y", "z"),
                          np.dtype("float32"), np.dtype(">i2"), np.dtype([("x", "i4")])]), True
 
     # ---- containers ----------------------------------------------------------------------------
